@@ -157,7 +157,10 @@ def run(rep: Report, tier: str) -> None:
             for s in subterms(t):
                 if s[0] == "fld" and s[2].startswith("InputData.__"):
                     fed.add(s[2].split(".__")[1])
-        for prop in required:
+        if not fed:
+            # the iterable could not be read down to InputData's tables (a generator, an iterator built elsewhere): unknown shape, not a located defect
+            rep.defer_error(f"{loc(add)}: the loop that feeds {short(add, 60)} iterates {[show(t)[:80] for t in iter_terms]}, which this rule cannot trace back to InputData's tables: merge of the three tables not decided for this shape")
+        for prop in required if fed else []:
             backing = _backing_field(m, input_data, prop)
             rep.check(
                 backing in fed,
@@ -182,7 +185,7 @@ def run(rep: Report, tier: str) -> None:
         abstract = m.abstract_transaction
         expected = norm._call_internal(norm._impls(abstract, "is_taxable"), arg, {}, ctx, "is_taxable")
         guard = m.guard_term(add, ctx)
-        rep.check(
+        if fed: rep.check(  # noqa: E701  (when the iterable is unreadable the filter may sit inside it: not decided, see the deferred error above)
             tkey(guard) == tkey(expected),
             r,
             fi.module,
